@@ -141,35 +141,35 @@ def encoder_model(ctx):
     ci = model.get('Constant')
     fn = ci.methods.get('get_string')
     ctx.need(fn is not None, 'Constant.get_string not found')
-    branch = None
-    for st in fn.body:
-        if isinstance(st, ast.If) and 'isinstance(self.value, str)' in norm(st.test):
-            branch = st
-    ctx.need(branch is not None, 'Constant.get_string: the str branch was not found')
-    steps = None
-    fmt = None
-    for st in branch.body:
-        if isinstance(st, ast.Assign) and isinstance(st.targets[0], ast.Name):
-            root, ch = chain_steps(st.value)
-            if norm(root) == 'self.value':
+    # the printer is interpreted (fail-closed AST interpreter) on a stand-in Constant: robust against the way it is written
+    from ..interp import Interp, Obj, Raised, Env
+    steps = []
+    for n in ast.walk(fn):
+        if isinstance(n, ast.Call) and isinstance(n.func, ast.Attribute) and n.func.attr == 'replace':
+            root, ch = chain_steps(n)
+            if ch and len(ch) > len(steps) and all(not c[0].endswith('?') for c in ch):
                 steps = ch
-                valvar = st.targets[0].id
-            elif isinstance(st.value, ast.JoinedStr):
-                fmt = st.value
-    ctx.need(steps is not None and fmt is not None, 'Constant.get_string: unmodelled shape of the str branch')
+    helpers = {}
+    mod = fn
+    while getattr(mod, '_parent', None) is not None:
+        mod = mod._parent
+    for st in getattr(mod, 'body', []):
+        if isinstance(st, ast.FunctionDef):
+            helpers[st.name] = st
 
     def enc(v):
-        body = apply_steps(steps, v)
-        out = ''
-        for part in fmt.values:
-            if isinstance(part, ast.Constant):
-                out += part.value
-            elif isinstance(part, ast.FormattedValue) and norm(part.value) == valvar:
-                out += body
-            else:
-                raise AnalysisError('Constant.get_string: unmodelled f-string')
+        stubs = {}
+        for hn, hf in helpers.items():
+            stubs[hn] = (lambda f_: (lambda it, *a, **k: it.call_function(f_, list(a), dict(k), Env())))(hf)
+        it = Interp({}, stubs, methods={'Constant': ci.methods})
+        try:
+            out = it.call_function(fn, [Obj('Constant', value=v, with_quotes=True, alias=None, parentheses=False)], {}, Env())
+        except Raised as r:
+            raise AnalysisError(f'Constant.get_string raises {r.exc_name} for the value {v!r}')
+        if not isinstance(out, str):
+            raise AnalysisError(f'Constant.get_string does not return text for the value {v!r}')
         return out
-    return enc, steps, (ci.file, branch.lineno)
+    return enc, steps, (ci.file, fn.lineno)
 
 
 VALUE_PROBES = ['', 'a', "'", '\\', 'a\\', "\\'", "''", '\\\\', '"', "it's", 'a\\nb', "a'b\\c", '%', ':x', '--', ';', '\n',
